@@ -131,7 +131,7 @@ pub fn run(rep: &Report) -> i32 {
         if quick && bi % 3 != 0 && bi >= 4 {
             return;
         }
-        let ms = mutate::near_misses(base);
+        let ms = mutate::near_misses_for(name, base, rep.is_quick());
         rep.transition(ms.len() as u64);
         for (op, m) in ms {
             if rep.out_of_time() {
